@@ -4,6 +4,8 @@
 # (VERIF_OUT), four at a time; /repo itself is never touched.  Writes seeded/matrix.json: id -> {check: exit status}.
 cd /verif || exit 2
 B=/var/tmp/mutant-matrix; rm -rf $B; mkdir -p $B/out
+# the checks run from a snapshot of /verif taken now, so that editing /verif meanwhile does not disturb the run
+rsync -a --exclude replays --exclude evidence --exclude .git --exclude __pycache__ /verif/ $B/verif/
 ids=("$@"); [ ${#ids[@]} -eq 0 ] && ids=($(ls -d seeded/*/ | xargs -n1 basename))
 H=$(git -C /repo rev-parse HEAD)
 one() {
@@ -13,7 +15,7 @@ one() {
   checks=$(/venv/bin/python -c "import json,sys; r=json.load(open('/verif/seeded/results.json')).get('$id',{}); print(' '.join(sorted({x.split()[0] for x in r.get('ran',[])} | {'$id'[:3]})))")
   : > $B/out/$id.txt
   for c in $checks; do
-    VERIF_REPO=$W VERIF_OUT=$B/out/$id ./check $c --tier quick > $B/out/$id.$c.log 2>&1; rc=$?
+    ( cd $B/verif && VERIF_REPO=$W VERIF_OUT=$B/out/$id ./check $c --tier quick > $B/out/$id.$c.log 2>&1 ); rc=$?
     echo "$c $rc $(grep -c '^VIOLATION' $B/out/$id.$c.log)" >> $B/out/$id.txt
   done
   git -C /repo worktree remove --force $W
